@@ -7,7 +7,6 @@ package processor
 // stream processor of `sort`.  Nothing here changes behaviour.
 
 import (
-	"container/list"
 	"fmt"
 	"io"
 
@@ -160,8 +159,6 @@ func (v *VerifSearcher) Step() (taken []int, queue [][2]uint64, cutoff uint64, g
 	}
 	return taken, queue, v.s.cutOffTimestampInMs, v.s.gotAllSegments, nil
 }
-
-var _ = list.New
 
 // ---- sort command ----
 
